@@ -87,10 +87,82 @@ class BurstDeleter(actors.Party):
         return out
 
 
+class Burst(actors.Party):
+    """n consecutive single-event writes of one kind (a heartbeat stream rewriting the newest event,
+    a run of replaces, inserts or deletes): the count threshold has to see every one of them."""
+
+    name = "burst"
+
+    def __init__(self, r, cfg, b):
+        super().__init__(r, cfg)
+        self.b = b
+        self.k = 0
+
+    def step(self):
+        r, lat = self.r, self.cfg["lat"]
+        n = r.choice([5, 20, 45, 55, 70, 110])
+        kind = r.choice(["replace_last_blind", "replace", "insert1", "delete", "mixed"])
+        out = []
+        if kind in ("replace", "delete", "mixed"):
+            m = n if kind == "delete" else r.choice([1, 3, 10])
+            out.append({"op": "insertN", "b": self.b, "evs": [{"ev": self.ev()} for _ in range(m)]})
+            out.append({"op": "read", "b": self.b, "limit": -1})
+        if kind == "replace_last_blind":
+            out.append({"op": "insert1", "b": self.b, "ev": self._newer()})
+        for _ in range(n):
+            k = kind if kind != "mixed" else r.choice(["replace", "insert1", "replace_last_blind"])
+            if k == "replace_last_blind":
+                out.append({"op": k, "b": self.b, "ev": self._newer()})
+            elif k == "replace":
+                out.append({"op": k, "b": self.b, "k": r.randrange(0, 1000), "ev": self.ev()})
+            elif k == "insert1":
+                out.append({"op": k, "b": self.b, "ev": self.ev()})
+            else:
+                out.append({"op": "delete", "b": self.b, "k": r.randrange(0, 1000)})
+        return out
+
+    def _newer(self):
+        """An event newer (timestamp and end) than anything on the lattice or issued by this party before."""
+        lat = self.cfg["lat"]
+        self.k += 1
+        E = self.ev()
+        E["ts"] = lat["base"] + lat["step"] * (lat["n"] + 10) + 3_600_000_000 + self.k * 1_000_000
+        E["off"] = 0
+        E["dur"] = 0
+        return E
+
+
+class Rejected(actors.Party):
+    """Operations the store must reject, issued while acknowledged writes are still buffered."""
+
+    name = "rejected"
+
+    def __init__(self, r, cfg, buckets):
+        super().__init__(r, cfg)
+        self.buckets = buckets
+        self.first = True
+
+    def step(self):
+        r = self.r
+        if self.first:
+            # a bucket that is created and deleted at once leaves a stale handle behind for later
+            self.first = False
+            return [{"op": "create", "b": "tmp", "meta": gen.meta(r, wild=False)}, {"op": "delete_bucket", "b": "tmp"}]
+        x = r.random()
+        if x < 0.25:
+            return {"op": "delete_bucket", "b": r.choice(self.buckets + ["ghost"])}
+        if x < 0.45:
+            return {"op": "update", "b": "ghost", "fields": actors.update_fields(r)}
+        b = r.choice(self.buckets + ["tmp", "tmp"])
+        if r.random() < 0.5:
+            return {"op": "insert_stale", "b": b, "ev": self.ev()}
+        return {"op": "insert_stale", "b": b, "evs": [{"ev": self.ev()} for _ in range(r.randrange(1, 4))]}
+
+
 class C06(Check):
     prop = "C06"
     level = "fault_enumeration"
-    quick_runs = 2000
+    quick_runs = 1600
     thorough_runs = 50000
     chunk = 20
     rule = (
@@ -103,7 +175,7 @@ class C06(Check):
     )
     expected_probes = [
         "crash_inside_bulk", "crash_inside_delete_bucket", "fault_restart_dirty", "restart_lost_writes", "restart_clean", "fault_clock_backward",
-        "fault_slow_statement", "bulk_over_50", "bulk_over_100", "bulk_mixed_upsert_insert", "delete_live", "replace_last_blind", "client_read", "delete_bucket_with_events",
+        "fault_slow_statement", "bulk_over_50", "bulk_over_100", "bulk_mixed_upsert_insert", "delete_live", "replace_last_blind", "client_read", "delete_bucket_with_events", "rejected_op_with_buffered_writes",
     ]
     assumptions = [
         "process death only: completed write()s survive (no power loss, torn pages, EIO or ENOSPC: Python's sqlite3 offers no VFS seam)",
@@ -134,7 +206,10 @@ class C06(Check):
             parties.append(IdReader(rs["read%d" % k], cfg, b))
             if r.random() < 0.25:
                 parties.append(BurstDeleter(rs["del%d" % k], cfg, b))
+            if r.random() < 0.25:
+                parties.append(Burst(rs["burst%d" % k], cfg, b))
         parties.append(actors.Admin(rs["admin"], cfg, buckets))
+        parties.append(Rejected(rs["rej"], cfg, buckets))
         parties.append(Ticker(rs["tick"], cfg))
         op = actors.Operator(rs["oper"], cfg)
         parties.append(op)
@@ -143,6 +218,8 @@ class C06(Check):
             "editor": r.choice([0.5, 1.5, 3.0]),
             "reader": r.choice([0.05, 0.3, 0.6]),
             "deleter": r.choice([0.1, 0.3]),
+            "burst": r.choice([0.1, 0.3]),
+            "rejected": r.choice([0.0, 0.2, 0.6]),
             "admin": r.choice([0.1, 0.4, 0.8]),
             "ticker": 0.4,
             "operator": r.choice([0.0, 0.05, 0.15]),
@@ -161,6 +238,10 @@ class C06(Check):
             out.append(s)
         steps += out
         density = r.choice([1.0, 1.0, 0.5, 0.2]) if backend != "peewee" else r.choice([0.3, 0.1, 0.05])
+        if len(steps) > 400:
+            density = min(density, 0.05)
+        elif len(steps) > 150:
+            density = min(density, 0.2)
         return {"backend": backend, "steps": steps, "lat": lat, "density": density, "sample_seed": derive(seed, self.prop, idx, "sample")}
 
     def start(self, world, run):
@@ -193,7 +274,7 @@ class C06(Check):
         statement k, parent reopens the child's real file).  Disagreement = harness error."""
         from sim import selftest
 
-        rc, compared, bad = selftest.crashstub(nruns=16 if tier == "quick" else 300, kills_per_run=4 if tier == "quick" else 8, seed=seed)
+        rc, compared, bad = selftest.crashstub(nruns=24 if tier == "quick" else 300, kills_per_run=4 if tier == "quick" else 8, seed=seed)
         errs = ["crash stub unfaithful: %d of %d real kills disagree with the snapshot stub" % (bad, compared)] if bad else []
         return errs, {"traces_validated_against_impl": compared, "real_process_deaths_compared_with_stub": compared, "stub_vs_real_disagreements": bad}
 
